@@ -21,6 +21,8 @@
                      RamanFiber and Multiband_amplifier and fails loudly when no model is permitted.
  Rm memo          : every memoisation construct in the functions behind this property is keyed by everything it reads.
  Rp presence      : optional numeric fields are tested with `is None` / membership, never by truthiness (0 is a value).
+ R7 span walk     : prev/next_node_generator continue over exactly the (Fused, Fused|fibre) / (Fused|fibre, Fused) class pairs
+                    (truth table of the isinstance condition over the element classes), mirror images; find_first/last_node.
 """
 import ast
 
@@ -419,6 +421,56 @@ def r6_every_oms(ctx):
 
 
 
+def r7_span_walk(ctx):
+    """R7: the walk that collects the elements of one span (prev_node_generator / next_node_generator, hence span_loss,
+    padding and find_first/last_node) continues over exactly the pairs (neighbour, node) where one is a Fused and the
+    other a Fused or a fibre (Raman fibres included) - decided as the truth table of its isinstance condition over the
+    element classes - and the two directions are mirror images"""
+    from ..typedomain import truth_table
+    repo = ctx.repo
+    m = repo.module(NW)
+    el = repo.module('gnpy.core.elements')
+    names = ['Fiber', 'RamanFiber', 'Fused', 'Edfa', 'Multiband_amplifier', 'Roadm', 'Transceiver']
+    dom = [el.classes[n] for n in names if n in el.classes]
+    if len(dom) != len(names):
+        raise AnchorMissing('element classes')
+    span = {'Fiber', 'RamanFiber', 'Fused'}
+    tables = {}
+    for fname, meth in (('prev_node_generator', 'predecessors'), ('next_node_generator', 'successors')):
+        f = repo.func(NW, fname)
+        NET, ND = f.params[0], f.params[1]
+        nb = [n.targets[0].id for n in walk_no_nested(f.node) if isinstance(n, ast.Assign) and isinstance(n.targets[0], ast.Name) and
+              ast.unparse(n.value) == f'next({NET}.{meth}({ND}))']
+        ifs = [n for n in f.node.body if isinstance(n, ast.If)]
+        ok = len(nb) == 1 and len(ifs) == 1
+        ctx.check('R7.span-walk', f'{site(f)} neighbour', ok, key(f, 'neighbour'),
+                  f'{fname} does not look at the first of {NET}.{meth}({ND}) and decide on one condition')
+        if not ok:
+            continue
+        tt = truth_table(repo, m, ifs[0].test, [nb[0], ND], dom)
+        tables[fname] = tt
+        wrong = sorted(k for k, v in tt.items() if v != ((k[0] == 'Fused' and k[1] in span) or (k[0] in span and k[1] == 'Fused')))
+        ctx.check('R7.span-walk', f'{site(f, ifs[0])} pairs that continue the span', not wrong, key(f, 'pairs'),
+                  f'{fname} continues / stops on the wrong (neighbour, node) class pairs {wrong[:6]}: the span (its loss, padding and '
+                  'first / last fibre) would be cut short or run through an amplifier', ast.unparse(ifs[0].test)[:200])
+        ys = [n for n in ast.walk(ifs[0]) if isinstance(n, (ast.Yield, ast.YieldFrom))]
+        ok = len(ys) == 2 and isinstance(ys[0], ast.Yield) and ast.unparse(ys[0].value) == nb[0] and isinstance(ys[1], ast.YieldFrom) and \
+            ast.unparse(ys[1].value) == f'{fname}({NET}, {nb[0]})' and not ifs[0].orelse
+        ctx.check('R7.span-walk', f'{site(f, ifs[0])} recursion', ok, key(f, 'recursion'),
+                  f'{fname} does not yield the neighbour and then continue the walk from it')
+    if len(tables) == 2:
+        ctx.check('R7.span-walk', 'prev / next mirror', tables['prev_node_generator'] == tables['next_node_generator'], f'{NW}|span-walk-mirror',
+                  'the backward and the forward span walks accept different class pairs')
+    for fname, gen in (('find_first_node', 'prev_node_generator'), ('find_last_node', 'next_node_generator')):
+        f = repo.func(NW, fname)
+        from ..pattern import mbody
+        body = [b for b in f.node.body if not (isinstance(b, ast.Expr) and isinstance(b.value, ast.Constant))]
+        b = mbody(f'V_t = {f.params[1]}\nfor V_t in {gen}({f.params[0]}, {f.params[1]}):\n    pass\nreturn V_t', body)
+        ctx.check('R7.span-walk', site(f), b is not None, key(f, 'last-of-walk'),
+                  f'{fname} does not return the last element of the {gen} walk (the node itself when the walk is empty)')
+    ctx.need('R7.span-walk', 9)
+
+
 from ..memo import rule_for as _memo_rule
 
 RULES_MEMO = ('Rm.memo', _memo_rule('C08', 'a structural decision taken for another element would be reused'))
@@ -429,4 +481,4 @@ from ..presence import rule_for as _presence_rule
 RULES_PRESENCE = ('Rp.presence', _presence_rule('C08', 'a legal zero would be read as missing'))
 
 RULES = [('R1.surgery', r1_surgery), ('R2.edge-weight', r2_weights), ('R3.completeness', r3_completeness), ('R4.split', r4_split),
-         ('R5.order', r5_order), ('R6.every-oms', r6_every_oms), RULES_MEMO, RULES_PRESENCE]
+         ('R5.order', r5_order), ('R6.every-oms', r6_every_oms), RULES_MEMO, RULES_PRESENCE, ('R7.span-walk', r7_span_walk)]
